@@ -109,7 +109,72 @@ def classify_corr(sc, j):
     return None
 
 
+def storage_remove_probe(chk, n):
+    """`xvc file remove --from-storage` (not in the model): oracle only.  Paths with shared content (same extension: one
+    stored object; another extension: a sibling object in the same digest directory) are sent to a local storage; after
+    `remove --from-storage L <targets> [--force]` an object may be gone only if one of the targets refers to it and --
+    without --force -- no tracked path outside the targets does."""
+    import os, json, random
+    from . import common as C
+    from .xvc import XvcRepo
+    xvc = C.ensure_xvc()
+    X_, Y_, Z_ = b"shared content\n" * 3, b"\x00other\n", b"third\n"
+    pool = {"a.txt": X_, "b.txt": X_, "c.dat": X_, "d/e.txt": X_, "f.txt": Y_, "g.dat": Y_, "h.txt": Z_}
+    ran = 0
+    for k in range(n):
+        rng = random.Random(chk.rng.randrange(1 << 30))
+        names = sorted(rng.sample(sorted(pool), rng.randint(3, 6)))
+        targets = sorted(rng.sample(names, rng.randint(1, 2)))
+        force = rng.random() < 0.25
+        sc = {"kind": "storage-remove-probe", "files": names, "targets": targets, "force": force}
+        with XvcRepo(xvc, prefix="c05st", git=False) as rp:
+            st = os.path.join(rp.base, "st")
+            for p in names:
+                rp.write(p, pool[p])
+            if rp.xvc("--skip-git", "file", "track", *names).failed or rp.xvc("--skip-git", "storage", "new", "local", "--name", "L", "--path", st).failed \
+                    or rp.xvc("--skip-git", "file", "send", "--to", "L").failed:
+                continue
+
+            def stored():
+                out = {}
+                for dp, _, fns in os.walk(st):
+                    for fn in fns:
+                        if fn != ".xvc-guid":
+                            full = os.path.join(dp, fn)
+                            out[os.path.relpath(full, st)] = open(full, "rb").read()
+                return out
+            before = stored()
+            r = rp.xvc(*(["--skip-git", "file", "remove", "--from-storage", "L"] + (["--force"] if force else []) + targets))
+            after = stored()
+            ran += 1
+            chk.count(("storage-remove", json.dumps(sc, sort_keys=True)), True)
+            what = None
+            for obj, data in before.items():
+                ext = obj.rsplit("0.", 1)[-1] if "/0." in obj else ""
+                refs = [p for p in names if pool[p] == data and (p.rsplit(".", 1)[-1] if "." in os.path.basename(p) else "") == ext]
+                if obj not in after:
+                    if not any(p in targets for p in refs):
+                        what = "remove --from-storage %s deleted the stored object %s, which none of the targets refers to (it is the content of %s)" % (" ".join(targets), obj, ", ".join(refs) or "?")
+                    elif not force and any(p not in targets for p in refs):
+                        what = "remove --from-storage %s deleted the stored object %s, still needed by %s" % (" ".join(targets), obj, ", ".join(p for p in refs if p not in targets))
+                elif after[obj] != data:
+                    what = "remove --from-storage changed the bytes of the stored object %s" % obj
+                if what:
+                    break
+            if what:
+                chk.fail("oracle", what, {"input": sc, "stderr": (r.err or "")[-200:]}, name="storageremove")
+                break
+    return ran
+
+
 def run(chk, replay=None):
+    res = run_model_and_cache(chk, replay)
+    if not replay:
+        chk.cov.setdefault("distribution", {})["storage_remove_probes"] = storage_remove_probe(chk, 8 if chk.tier == "quick" else 80)
+    return res
+
+
+def run_model_and_cache(chk, replay=None):
     return X.run_property(
         chk, replay, "remove", oracle, classify_corr, nontrivial,
         "random histories: 2-4 tracked paths with contents from a 2-3 element pool (duplicates), new versions (a path's old version equal to another path's current one), copies and moves (shared objects, directory records), "
